@@ -598,13 +598,20 @@ impl Duration {
     /// assert_eq!(two_hours_three_min.round(1.hours() + 5.minutes()), 2.hours() + 10.minutes());
     /// ```
     pub fn round(&self, duration: Self) -> Self {
-        let floored = self.floor(duration);
-        let ceiled = self.ceil(duration);
-        if *self - floored < (ceiled - *self).abs() {
-            floored
-        } else {
-            ceiled
+        // Choose between the exact multiples below and above, and saturate afterwards: comparing with the already
+        // saturated `floor` and `ceil` returned Duration::MAX when the multiple below was the closest one.
+        let step_ns = duration.total_nanoseconds();
+        if step_ns == 0 {
+            return Self::ZERO;
         }
+        let total_ns = self.total_nanoseconds();
+        let floored_ns = total_ns - total_ns.rem_euclid(step_ns);
+        let ceiled_ns = floored_ns + duration.abs().total_nanoseconds();
+        Self::from_total_nanoseconds(if total_ns - floored_ns < ceiled_ns - total_ns {
+            floored_ns
+        } else {
+            ceiled_ns
+        })
     }
 
     /// Rounds this duration to the largest units represented in this duration.
